@@ -119,7 +119,10 @@ func (r *x03Reader) Read(p []byte) (int, error) {
 // ---------------------------------------------------------------- tokenizer sink
 
 type x03Tok struct {
-	mu    sync.Mutex
+	// inbandServer: the sink is what the server reads from its terminal; an action that arrives here came the
+	// in-band way and must have passed the relay's handshake (C14: no binary mode without a tunnel)
+	inbandServer bool
+	mu           sync.Mutex
 	s     *x03Sess
 	carry []byte
 	seen  map[int]bool
@@ -155,6 +158,9 @@ func (w *x03Tok) Write(p []byte) (int, error) {
 			break
 		}
 		toks = append(toks, w.s.classify(data[i:j+1]))
+		if w.inbandServer {
+			w.s.checkInbandAct(data[i : j+1])
+		}
 		i = j + 1
 	}
 	if len(toks) > 0 {
@@ -307,6 +313,29 @@ func (s *x03Sess) render(toks []int) []byte {
 		}
 	}
 	return b.Bytes()
+}
+
+// checkInbandAct: an ACT line on the server's terminal input.  The scripted client announces binary support; the
+// relay lets that stand only for a transfer that runs through the tunnel.
+func (s *x03Sess) checkInbandAct(line []byte) {
+	i := bytes.Index(line, []byte("#ACT:"))
+	if i < 0 {
+		return
+	}
+	dec, err := decodeString(string(bytes.TrimRight(line[i+5:], "\r\n")))
+	if err != nil {
+		return
+	}
+	var a transferAction
+	if json.Unmarshal(dec, &a) != nil {
+		return
+	}
+	if a.SupportBinary && !a.TunnelConnected {
+		s.note("c14:act-binary-inband:" + a.Lang)
+	}
+	if a.Protocol > kProtocolVersion {
+		s.note("c14:act-protocol-raised:" + a.Lang)
+	}
 }
 
 func (s *x03Sess) classify(line []byte) int {
@@ -1187,7 +1216,7 @@ func x03RunSession(tr *vTrace, plan *x03Plan) (ok bool, info map[string]any) {
 	s.winArm.Store(plan.Window)
 	verifHook = s.hook
 	defer func() { verifHook = nil }()
-	s.toS = &x03Tok{s: s, seen: map[int]bool{}, emit: func(t []int) { s.ev(map[string]any{"e": "deliver", "to": "s", "u": t}, nil) }}
+	s.toS = &x03Tok{inbandServer: true, s: s, seen: map[int]bool{}, emit: func(t []int) { s.ev(map[string]any{"e": "deliver", "to": "s", "u": t}, nil) }}
 	s.toC = &x03Tok{s: s, seen: map[int]bool{}, emit: func(t []int) { s.ev(map[string]any{"e": "deliver", "to": "c", "u": t}, nil) }}
 	s.cin = &x03Reader{ch: make(chan x03Chunk)}
 	s.sout = &x03Reader{ch: make(chan x03Chunk)}
@@ -1414,6 +1443,14 @@ func x03Drive(d *vCtx) error {
 			}
 			ok, info := x03RunSession(tr, plan)
 			infos = append(infos, info)
+			if ns, _ := info["notes"].([]string); len(ns) > 0 {
+				for _, nt := range ns {
+					if strings.HasPrefix(nt, "c14:") {
+						d.add("c14_notes", 1)
+						break
+					}
+				}
+			}
 			d.add("runs", 1)
 			d.add("rounds", len(plan.Rounds))
 			if !ok {
